@@ -524,7 +524,9 @@ pub fn run_c09(ctx: &mut Ctx) {
                             idx += 1;
                             if !ctx.mine(idx) { continue; }
                             let body = enc(&(0..actual).map(|i| b'a' + (i % 23) as u8).collect::<Vec<u8>>());
-                            let req = format!("POST:/r0:{framing}:{body}:g{m}");
+                            // a body that was sent completely is followed by a second request on the same connection
+                            let follow = if (framing == "k" || framing == "e") && idx % 2 == 0 { ";GET:/r1:n::n200" } else { "" };
+                            let req = format!("POST:/r0:{framing}:{body}:g{m}{follow}");
                             case(ctx, "c09", &s.to_string(), cache, if idx % 3 == 0 && actual < 20_000 { "frag" } else { "single" }, &req);
                         }
                     }
